@@ -52,7 +52,10 @@ Theorem C06_clustal_roundtrip : forall version rows alnlen,
   Forall (fun nr => name_ok (fst nr) /\ good_row (snd nr) /\ length (snd nr) = alnlen /\ (length (fst nr) <= 200)%nat) rows ->
   (1 <= alnlen)%nat ->
   exists m, read_one (write_clu version alnlen rows) = Some (Some m) /\ rows_of (m_recs m) = rows.
-Proof. exact read_one_written_clu. Qed.
+Proof.
+  intros version rows alnlen Hv Hne Hall Hlen.
+  destruct (read_one_written_clu version rows alnlen Hv Hne Hall Hlen) as (m & H1 & H2 & _). exists m. split; assumption.
+Qed.
 Print Assumptions C06_clustal_roundtrip.
 
 (* MSF, complete.  Names must not contain '/' (a "//" would end the header).  The title line carries two free
@@ -64,7 +67,10 @@ Theorem C06_msf_roundtrip : forall base date protein rows alnlen,
   Forall (fun nr => name_ok (fst nr) /\ good_row (snd nr) /\ length (snd nr) = alnlen /\ (length (fst nr) <= 200)%nat /\ ~ In 47 (fst nr)) rows ->
   (1 <= alnlen)%nat ->
   exists m, read_one (write_msf base date protein alnlen rows) = Some (Some m) /\ rows_of (m_recs m) = rows.
-Proof. exact msf_roundtrip. Qed.
+Proof.
+  intros base date protein rows alnlen Ht Hc Hall Hlen.
+  destruct (msf_roundtrip base date protein rows alnlen Ht Hc Hall Hlen) as (m & H1 & H2 & _). exists m. split; assumption.
+Qed.
 Print Assumptions C06_msf_roundtrip.
 
 (* the title-line premises hold for a realistic title: base name "out.msf", date "September 29, 2026 10:15" *)
